@@ -66,18 +66,25 @@ def gen_scalar(rng, cfg):
         elif r < 0.8:
             cp = rng.choice([0x0A, 0x0D, 0x20, 0x09])
         else:
-            cp = rng.choice([0x41, 0xE9, 0x3BB, 0x4E2D, 0xFFFF, 0x7F, 0])
+            # incl. surrogate halves: a four-digit \\uXXXX character literal is core syntax for any XXXX
+            cp = rng.choice([0x41, 0xE9, 0x3BB, 0x4E2D, 0xFFFF, 0x7F, 0, 0xD800, 0xDBFF, 0xDC00, 0xDFFF, 0xD83D, 0xE000, 0xFFFE])
         return ("char", cp)
     if k < 0.74:
         return ("str", gen_string_bytes(rng))
     if k < 0.86:
         ns = _ident(rng, 6) if rng.random() < 0.3 else None
+        if rng.random() < 0.06:
+            ns = rng.choice(["_", "_x", "__", "a_"])  # `_` is an ordinary identifier character in core EDN
         return ("kw", ns, _ident(rng))
     if k < 0.97:
         ns = _ident(rng, 6) if rng.random() < 0.3 else None
         name = _ident(rng) if rng.random() > 0.05 else rng.choice(["+", "-", "/", "*", "<=", "->x", ".", "+a", "-a"])
         if ns and name == "/":
             name = "x"
+        if rng.random() < 0.06:
+            ns = rng.choice(["_", "_x", "__", "a_"])
+            if name == "/":
+                name = "y"
         return ("sym", ns, name)
     if clj and rng.random() < 0.8:
         n = rng.randint(-10 ** 6, 10 ** 6)
